@@ -141,6 +141,21 @@ def repeat_mode_provenance(prog, res):
                       "ZSTD_compressBlock_targetCBlockSize", "ZSTD_compressBlock_splitBlock"):
             # functions whose caller performs the demotion are listed with it
             pass
+        if not dem and live:
+            # the demotion may sit in the function's wrapper (ZSTD_compressBlock_targetCBlockSize around its _body): then EVERY caller
+            # performs it on every path that follows the call.  A confirming function with no demotion anywhere is the violation.
+            def demotes_after(cal):
+                d2 = [(b, i) for b, i, x in cal.events(lambda y: y.get("k") == "asg") if (reset.field_path_from(x["lhs"], "ZSTD_CCtx_s") or ())[-1:] == ("offcode_repeatMode",)
+                      and any(y.get("n") == "FSE_repeat_check" for y in walk(x["rhs"]))]
+                t2 = cond_edges(cal, lambda c: c.get("k") == "bin" and c["op"] == "==" and any(y.get("f") == "offcode_repeatMode" for y in walk(c)) and any(y.get("n") == "FSE_repeat_valid" for y in walk(c)), "false")
+                sites = cal.call_roots(h.name)
+                return bool(d2) and bool(sites) and cal.must_pass(via_roots=d2, via_edges=set(t2), starts=[(b, i + 1) for b, i in sites], targets=[t for t in reset.success_returns(cal)])
+            cals = [c for c in prog.callers().get(h.name, []) if c.file == h.file]
+            okc = bool(cals) and all(demotes_after(c) for c in cals)
+            res.check(okc, R, h.name + ":offcode-valid-demoted-by-every-caller", h.loc, "the block is confirmed here and demoted by %s" % ", ".join(sorted(c.name for c in cals)),
+                      "%s confirms a block and neither it nor all of its callers demote the dictionary's offset table from `valid` to `check` afterwards: "
+                      "the next block may reuse a table that lacks the offset code it needs" % h.name)
+            n += 1
         if dem:
             res.check(ok, R, h.name + ":offcode-valid-demoted-after-block", h.loc, "after confirming a block, offcode `valid` becomes `check`",
                       "a confirmed block can leave the dictionary's offset table marked `valid` although the window has moved")
